@@ -45,6 +45,88 @@ ASSUMPTIONS = ["CPython ast parses /repo's source as the interpreter would"]
 MIN_INSTANCES = {"R-18e": 5, "R-18d": 1, "R-18a": 12, "R-18b": 8, "R-18c": 6}
 
 
+def _simport_getitem_ok(fn):
+    """SimulationPort.__getitem__ by path: for a slice key and for an integer key, the fields stored into the new port are
+    _i/_o/_oe indexed with `key` (None stays None), _invert[key] (wrapped in a 1-tuple for an integer key) and the direction"""
+    from ..engine.symx import run_paths
+    seen = set()
+    ok = True
+    for p in run_paths(fn.body):
+        if p.how != "return":
+            continue
+        for is_slice in (True, False):
+            if any(unparse(c) == "isinstance(key, slice)" and pol != is_slice for c, pol in p.conds):
+                continue
+            need(p.ret is not None and unparse(p.ret) == "object.__new__(type(self))", "SimulationPort.__getitem__: result is not a "
+                 "fresh object.__new__(type(self))")
+            got = {}
+            for e in p.effects:
+                need(isinstance(e, ast.Assign) and len(e.targets) == 1 and isinstance(e.targets[0], ast.Attribute)
+                     and unparse(e.targets[0].value) == unparse(p.ret), f"SimulationPort.__getitem__: effect `{unparse(e)}` not recognised")
+                v = e.value
+                for _ in range(4):
+                    if isinstance(v, ast.IfExp) and unparse(v.test) == "isinstance(key, slice)":
+                        v = v.body if is_slice else v.orelse
+                    elif isinstance(v, ast.IfExp) and unparse(v.test) == "not isinstance(key, slice)":
+                        v = v.orelse if is_slice else v.body
+                got[e.targets[0].attr] = unparse(v)
+            want = {"_direction": ("self._direction",), "_invert": ("self._invert[key]",) if is_slice else ("(self._invert[key],)",)}
+            for f in ("_i", "_o", "_oe"):
+                want[f] = (f"None if self.{f} is None else self.{f}[key]", f"self.{f}[key] if self.{f} is not None else None")
+            seen.add(is_slice)
+            ok = ok and set(got) == set(want) and all(got[k] in want[k] for k in want)
+    need(seen == {True, False}, "SimulationPort.__getitem__: no returning path for a slice / an integer key")
+    return ok
+
+
+def _simport_add_ok(fn):
+    """SimulationPort.__add__ by path and by the combined direction D = self._direction & other._direction (Input, Output,
+    Bidir): _i is None for Output else Cat(self._i, other._i); _o/_oe are None for Input else the concatenations; _invert is
+    the concatenation of the tuples; the direction stored is D"""
+    import re
+    from ..engine.symx import run_paths
+    D = "self._direction & other._direction"
+    seen = set()
+    ok = True
+    for p in run_paths(fn.body):
+        if p.how != "return" or p.ret is None or unparse(p.ret) == "NotImplemented":
+            continue
+        for state in ("Input", "Output", "Bidir"):
+            def holds(t):
+                m = re.fullmatch(r"(.+) (is|is not|==|!=) Direction\.(\w+)", t)
+                if m is None:
+                    return None
+                need(m.group(1) == D, f"SimulationPort.__add__: test `{t}` is not about the combined direction")
+                return (state == m.group(3)) == (m.group(2) in ("is", "=="))
+            feasible = True
+            for c, pol in p.conds:
+                h = holds(unparse(c))
+                if h is not None and h != pol:
+                    feasible = False
+            if not feasible:
+                continue
+            got = {}
+            for e in p.effects:
+                need(isinstance(e, ast.Assign) and all(isinstance(t, ast.Attribute) and unparse(t.value) == unparse(p.ret) for t in e.targets),
+                     f"SimulationPort.__add__: effect `{unparse(e)}` not recognised")
+                v = e.value
+                for _ in range(4):
+                    if isinstance(v, ast.IfExp):
+                        h = holds(unparse(v.test))
+                        need(h is not None, f"SimulationPort.__add__: `{unparse(v)}` not recognised")
+                        v = v.body if h else v.orelse
+                for t in e.targets:
+                    got[t.attr] = unparse(v)
+            want = {"_i": "None" if state == "Output" else "Cat(self._i, other._i)",
+                    "_o": "None" if state == "Input" else "Cat(self._o, other._o)",
+                    "_oe": "None" if state == "Input" else "Cat(self._oe, other._oe)",
+                    "_invert": "self._invert + other._invert", "_direction": D}
+            seen.add(state)
+            ok = ok and got == want
+    need(seen == {"Input", "Output", "Bidir"}, "SimulationPort.__add__: some direction has no returning path")
+    return ok
+
+
 def r18a(model, ctx):
     R = "R-18a"
     spec = {
@@ -99,10 +181,7 @@ def r18a(model, ctx):
     def assigns(fn):
         return {unparse(s.targets[0]): unparse(s.value) for s in ast.walk(fn) if isinstance(s, ast.Assign) and unparse(s.targets[0]).startswith("result.")}
     a = assigns(ms["__getitem__"])
-    ok = a.get("result._i") == "None if self._i is None else self._i[key]" and a.get("result._o") == "None if self._o is None else self._o[key]" and \
-        a.get("result._oe") == "None if self._oe is None else self._oe[key]" and a.get("result._direction") == "self._direction"
-    t = unparse(ms["__getitem__"])
-    ok = ok and "if isinstance(key, slice):\n        result._invert = self._invert[key]\n    else:\n        result._invert = (self._invert[key],)" in t
+    ok = _simport_getitem_ok(ms["__getitem__"])
     ctx.check(ok, R, "SimulationPort.__getitem__", "i, o, oe and invert indexed with the same key; direction kept",
               f"SimulationPort.__getitem__ must index _i, _o, _oe and _invert with the same key; found {a}", f"{IO}:{ms['__getitem__'].lineno}")
     a = assigns(ms["__invert__"])
@@ -113,11 +192,7 @@ def r18a(model, ctx):
     ctx.check(ok, R, "SimulationPort.__invert__", "only invert changes", f"SimulationPort.__invert__ must only negate _invert; found {a}",
               f"{IO}:{ms['__invert__'].lineno}")
     a = assigns(ms["__add__"])
-    ok = a.get("result._i") == "None if direction is Direction.Output else Cat(self._i, other._i)" and \
-        a.get("result._o") == "None if direction is Direction.Input else Cat(self._o, other._o)" and \
-        a.get("result._oe") == "None if direction is Direction.Input else Cat(self._oe, other._oe)" and \
-        a.get("result._invert") == "self._invert + other._invert" and a.get("result._direction") == "direction" and \
-        "direction = self._direction & other._direction" in unparse(ms["__add__"])
+    ok = _simport_add_ok(ms["__add__"])
     ctx.check(ok, R, "SimulationPort.__add__", "i/o/oe/invert concatenated as (self, other); direction narrowed",
               f"SimulationPort.__add__ must concatenate every per-bit field as (self, other) and narrow the direction; found {a}",
               f"{IO}:{ms['__add__'].lineno}")
